@@ -1,3 +1,282 @@
-/-! C09 property theorems — stub (not built yet). -/
+import TTModel.C09_Options
+import TTModel.C09_BDSK
+import TTGen.C09_Options
+import TTProofs.Lemmas.C09_Analytic
+import TTProofs.Lemmas.C09_Discrete
+import TTProofs.Lemmas.C09_Single
+/-!
+# C09 — birth–death skyline density agrees across epochs and with the constant model; JSON options select
+the behaviour they name
+
+* `options_select_named` is about the table REGENERATED from the AST of `BDSKModel` / `BirthDeathModel`.
+* the analytic theorems are about `TT.C09.logProb` and its parts (`TTModel/C09_BDSK.lean`), the model of
+  `PiecewiseConstantBirthDeath.log_prob` tied to the code by the Float correspondence of `harness/c09.py`.
+* NOT proved: agreement with numerical integration of the master equations (an ODE statement; explored with RK4 in
+  the harness only) and `split_invariance` for the full density (its three ingredients are proved below:
+  `p_semigroup`, `q_semigroup`, `epoch_index_refines` + `boundary_count`).
+-/
 namespace TTProps.C09
+open TT TT.C09 TTGen.C09_Options
+
+theorem translator_recognised : translatorOk = true := by decide
+
+/-- **options_select_named**: every constructor argument `from_json` fills is read from the JSON key of its own
+name (guarded, if at all, by that same key), in the form the constructor expects; every attribute `_call`
+reads is one the class defines; no change handler is overridden by `pass`. -/
+theorem options_select_named : ∀ c ∈ classes, c.ok = true := by decide
+
+/-! ## single epoch = constant-rate birth–death-sampling density -/
+
+/-- density of the oriented sampled tree given the age `T` of the origin, in the symbols of Stadler (2010,
+J. Theor. Biol. 267, Thm 3.5: `c1`, `c2`, `q`, `p0`, backward time): internal node ages `ints`, ages of the tips
+sampled through time `serial` (each contributes `psi q(y)`: sampled lineages are removed), `N` tips sampled at
+the present with probability `rho`; optionally conditioned on sampling at least one individual. Written
+independently of `bdsk.py`. -/
+noncomputable def constDensity (lam mu psi rho T : ℝ) (ints serial : List ℝ) (N : ℕ) (surv : Bool) : ℝ :=
+  lam ^ ints.length * psi ^ serial.length * (4 * rho) ^ N
+    * ((T :: ints).map fun x => 1 / q10 (c1 lam mu psi) (c2 lam mu psi rho) x).prod
+    * (serial.map (q10 (c1 lam mu psi) (c2 lam mu psi rho))).prod
+    / (if surv then 1 - p10 lam mu psi (c1 lam mu psi) (c2 lam mu psi rho) T else 1)
+
+/-- **single_epoch_eq_constant**: with one epoch `[0, T)` the skyline log density of ANY tree (any number of tips,
+ages `tips` in `[0, T)`, internal ages `ints` in `(0, T)`, serial and/or contemporaneous, `rho ≥ 0`, with or
+without survival conditioning) is the logarithm of the constant-rate density; a tip of age 0 counts as
+`rho`-sampled exactly when `rho > 0`. -/
+theorem single_epoch_eq_constant (r : Rates ℝ) (t : Nat → ℝ) (T : ℝ) (h0 : t 0 = 0) (h1 : t 1 = T)
+    (surv : Bool) (tips ints : List ℝ) (hT : 0 < T)
+    (hints : ∀ h ∈ ints, 0 < h ∧ h < T) (htips : ∀ h ∈ tips, 0 ≤ h ∧ h < T)
+    (hlam : 0 < r.lam 0) (hpsi : 0 < r.psi 0) (hrho : 0 ≤ r.rho 0)
+    (hn : ints.length + 1 = tips.length)
+    (hZ : surv = true → p10 (r.lam 0) (r.mu 0) (r.psi 0) (c1 (r.lam 0) (r.mu 0) (r.psi 0))
+      (c2 (r.lam 0) (r.mu 0) (r.psi 0) (r.rho 0)) T < 1) :
+    logProb r none t 1 surv tips ints =
+      Real.log (constDensity (r.lam 0) (r.mu 0) (r.psi 0) (r.rho 0) T ints
+        (tips.filter fun h => ¬ (h = 0 ∧ 0 < r.rho 0))
+        (tips.filter fun h => h = 0 ∧ 0 < r.rho 0).length surv) := by
+  rw [logProb_single r t T h0 h1 surv tips ints hT hints htips]
+  unfold constDensity
+  rw [← Acoef_eq_c1, ← Bcoef_eq_c2] at hZ ⊢
+  set A := Acoef r 0 with hAdef
+  set B := Bcoef r 0 1 with hBdef
+  set serial := tips.filter fun h => ¬ (h = 0 ∧ 0 < r.rho 0) with hserial
+  set N := (tips.filter fun h => h = 0 ∧ 0 < r.rho 0).length with hN
+  have hA : 0 < A := Acoef_pos r 0 (mul_pos hlam hpsi)
+  have hB : -1 ≤ B := Bcoef_ge_neg_one r 0 1 (mul_pos hlam hpsi) hlam.le zero_le_one le_rfl hrho
+  have hD : ∀ a : ℝ, 0 ≤ a → Real.exp (A * a) * (1 + B) + (1 - B) ≠ 0 := by
+    intro a ha
+    have := denom_ge_two A B a hB (mul_nonneg hA.le ha)
+    linarith
+  have hq : ∀ a : ℝ, 0 ≤ a → 0 < q10 A B a := fun a ha => q10_pos A B a (hD a ha)
+  have hlq : ∀ a : ℝ, 0 ≤ a → Real.log (qv A B a) = Real.log 4 - Real.log (q10 A B a) := by
+    intro a ha
+    rw [qv_eq_four_div_q10, Real.log_div (by norm_num) (hq a ha).ne']
+  have hp : pStep r 0 T 1 = p10 (r.lam 0) (r.mu 0) (r.psi 0) A B T := by
+    rw [pStep_eq_pClosed, pClosed_eq_p10 _ _ _ _ _ _ (hD T hT.le)]
+  have hserial_mem : ∀ h ∈ serial, 0 ≤ h := fun h hm => (htips h (List.mem_of_mem_filter hm)).1
+  -- the model side, term by term
+  have e1 : (ints.map fun h => Real.log (r.lam 0) + Real.log (qv A B h)).sum
+      = ints.length * (Real.log (r.lam 0) + Real.log 4) - (ints.map fun h => Real.log (q10 A B h)).sum := by
+    have : (ints.map fun h => Real.log (r.lam 0) + Real.log (qv A B h))
+        = ints.map fun h => (Real.log (r.lam 0) + Real.log 4) - Real.log (q10 A B h) := by
+      apply List.map_congr_left
+      intro h hm
+      rw [hlq h (hints h hm).1.le]; ring
+    rw [this, sum_map_const_sub]
+  have e2 : (tips.map fun h => if h = 0 ∧ 0 < r.rho 0 then 0 else Real.log (r.psi 0) - Real.log (qv A B h)).sum
+      = serial.length * (Real.log (r.psi 0) - Real.log 4) + (serial.map fun h => Real.log (q10 A B h)).sum := by
+    rw [sum_ite_filter tips (fun h => h = 0 ∧ 0 < r.rho 0)]
+    have : (serial.map fun h => Real.log (r.psi 0) - Real.log (qv A B h))
+        = serial.map fun h => (Real.log (r.psi 0) - Real.log 4) + Real.log (q10 A B h) := by
+      apply List.map_congr_left
+      intro h hm
+      rw [hlq h (hserial_mem h hm)]; ring
+    rw [← hserial, this, sum_map_const_add]
+  have hcount : (serial.length : ℝ) + N = ints.length + 1 := by
+    have := length_filter_split tips (fun h => h = 0 ∧ 0 < r.rho 0)
+    rw [← hserial, ← hN] at this
+    have h2 : serial.length + N = ints.length + 1 := by omega
+    exact_mod_cast h2
+  -- the spec side
+  have hl1 : ∀ x ∈ (T :: ints), (fun x => 1 / q10 A B x) x ≠ 0 := by
+    intro x hx
+    have hx0 : 0 ≤ x := by
+      rcases List.mem_cons.mp hx with e | e
+      · rw [e]; exact hT.le
+      · exact (hints x e).1.le
+    exact one_div_ne_zero (hq x hx0).ne'
+  have hl2 : ∀ y ∈ serial, q10 A B y ≠ 0 := fun y hy => (hq y (hserial_mem y hy)).ne'
+  have hP1 : Real.log ((T :: ints).map fun x => 1 / q10 A B x).prod
+      = -Real.log (q10 A B T) - (ints.map fun h => Real.log (q10 A B h)).sum := by
+    rw [log_prod_map _ _ hl1]
+    simp only [List.map_cons, List.sum_cons, one_div, Real.log_inv]
+    have : (ints.map fun a => -Real.log (q10 A B a)).sum = -(ints.map fun a => Real.log (q10 A B a)).sum := by
+      have := sum_map_const_sub ints 0 (fun a => Real.log (q10 A B a))
+      simpa using this
+    rw [this]; ring
+  have hP2 : Real.log (serial.map (q10 A B)).prod = (serial.map fun h => Real.log (q10 A B h)).sum :=
+    log_prod_map _ _ hl2
+  have hP1ne : ((T :: ints).map fun x => 1 / q10 A B x).prod ≠ 0 := by
+    apply List.prod_ne_zero
+    simp only [List.mem_map, not_exists, not_and]
+    intro x hx e; exact hl1 x hx e
+  have hP2ne : (serial.map (q10 A B)).prod ≠ 0 := by
+    apply List.prod_ne_zero
+    simp only [List.mem_map, not_exists, not_and]
+    intro x hx e; exact hl2 x hx e
+  have hlamk : (r.lam 0) ^ ints.length ≠ 0 := pow_ne_zero _ hlam.ne'
+  have hpsiS : (r.psi 0) ^ serial.length ≠ 0 := pow_ne_zero _ hpsi.ne'
+  -- rho-dependent part
+  have hrhoPart : ((4 * r.rho 0) ^ N ≠ 0) ∧
+      Real.log ((4 * r.rho 0) ^ N) + 0 = N * Real.log 4 +
+        ((tips.filter (· = 0)).length : ℝ)
+          * Real.log (if 0 < (tips.filter (· = 0)).length ∧ 0 < r.rho 0 then r.rho 0 else 1) := by
+    by_cases hr : 0 < r.rho 0
+    · have hNeq : N = (tips.filter (· = 0)).length := by
+        rw [hN]; congr 1; apply List.filter_congr; intro h _; simp [hr]
+      refine ⟨pow_ne_zero _ (mul_ne_zero (by norm_num) hr.ne'), ?_⟩
+      rw [Real.log_pow, Real.log_mul (by norm_num) hr.ne', ← hNeq]
+      by_cases hN0 : 0 < N
+      · simp [hN0, hr]; ring
+      · have : N = 0 := by omega
+        simp [this]
+    · have hN0 : N = 0 := by
+        rw [hN]; simp [hr]
+      refine ⟨by rw [hN0]; simp, ?_⟩
+      simp [hN0, hr]
+  obtain ⟨hrhone, hrholog⟩ := hrhoPart
+  have hnum : (r.lam 0) ^ ints.length * (r.psi 0) ^ serial.length * (4 * r.rho 0) ^ N
+      * ((T :: ints).map fun x => 1 / q10 A B x).prod * (serial.map (q10 A B)).prod ≠ 0 :=
+    mul_ne_zero (mul_ne_zero (mul_ne_zero (mul_ne_zero hlamk hpsiS) hrhone) hP1ne) hP2ne
+  have hlognum : Real.log ((r.lam 0) ^ ints.length * (r.psi 0) ^ serial.length * (4 * r.rho 0) ^ N
+      * ((T :: ints).map fun x => 1 / q10 A B x).prod * (serial.map (q10 A B)).prod)
+      = ints.length * Real.log (r.lam 0) + serial.length * Real.log (r.psi 0) + Real.log ((4 * r.rho 0) ^ N)
+        + (-Real.log (q10 A B T) - (ints.map fun h => Real.log (q10 A B h)).sum)
+        + (serial.map fun h => Real.log (q10 A B h)).sum := by
+    rw [Real.log_mul (mul_ne_zero (mul_ne_zero (mul_ne_zero hlamk hpsiS) hrhone) hP1ne) hP2ne,
+      Real.log_mul (mul_ne_zero (mul_ne_zero hlamk hpsiS) hrhone) hP1ne,
+      Real.log_mul (mul_ne_zero hlamk hpsiS) hrhone, Real.log_mul hlamk hpsiS, Real.log_pow, Real.log_pow, hP1, hP2]
+  have h4 : (serial.length : ℝ) * Real.log 4 + N * Real.log 4 = ints.length * Real.log 4 + Real.log 4 := by
+    rw [← add_mul, hcount]; ring
+  rw [hp, hlq T hT.le, e1, e2]
+  cases surv with
+  | false =>
+      simp only [Bool.false_eq_true, ↓reduceIte, div_one, sub_zero]
+      rw [hlognum]
+      linarith [hrholog, h4]
+  | true =>
+      have hZ' := hZ rfl
+      have hZne : (1 - p10 (r.lam 0) (r.mu 0) (r.psi 0) A B T) ≠ 0 := by linarith
+      simp only [↓reduceIte]
+      rw [Real.log_div hnum hZne, hlognum]
+      linarith [hrholog, h4]
+
+/-- non-vacuity (survival off): two tips, one at the present, one of age 1/2, root age 1, origin 2 -/
+example : ∃ (r : Rates ℝ) (t : Nat → ℝ), t 0 = 0 ∧ t 1 = 2 ∧ (∀ h ∈ [(1:ℝ)], 0 < h ∧ h < 2) ∧
+    (∀ h ∈ [(0:ℝ), 1/2], 0 ≤ h ∧ h < 2) ∧ 0 < r.lam 0 ∧ 0 < r.psi 0 ∧ 0 ≤ r.rho 0 ∧
+    [(1:ℝ)].length + 1 = [(0:ℝ), 1/2].length := by
+  refine ⟨⟨fun _ => 2, fun _ => 1, fun _ => 1/2, fun _ => 1/4⟩, fun k => if k = 0 then 0 else 2, ?_, ?_, ?_, ?_,
+    ?_, ?_, ?_, rfl⟩ <;> norm_num
+
+/-! ## identical rates across a boundary without sampling: `p` continues, `q` composes -/
+
+/-- **p_semigroup**: if epochs `i` and `i+1` carry the same rates and there is no sampling event at the boundary
+between them (`rho i = 0`), two steps of the backward recursion (lengths `d2` then `d1`) give what one step over the
+merged epoch of length `d1 + d2` gives. -/
+theorem p_semigroup (r : Rates ℝ) (i : Nat) (d1 d2 pn : ℝ)
+    (hl : r.lam i = r.lam (i + 1)) (hm : r.mu i = r.mu (i + 1)) (hp : r.psi i = r.psi (i + 1))
+    (hrho : r.rho i = 0) (hlam : 0 < r.lam (i + 1)) (hpsi : 0 < r.psi (i + 1))
+    (hpn0 : 0 ≤ pn) (hpn1 : pn ≤ 1) (hrho1 : 0 ≤ r.rho (i + 1)) (hd1 : 0 ≤ d1) (hd2 : 0 ≤ d2) :
+    pStep r i d1 (pStep r (i + 1) d2 pn) = pStep r (i + 1) (d1 + d2) pn := by
+  have hAeq : Acoef r i = Acoef r (i + 1) := by unfold Acoef; rw [hl, hm, hp]
+  have hA : 0 < Acoef r (i + 1) := Acoef_pos r (i + 1) (mul_pos hlam hpsi)
+  have hB : -1 ≤ Bcoef r (i + 1) pn := Bcoef_ge_neg_one r (i + 1) pn (mul_pos hlam hpsi) hlam.le hpn0 hpn1 hrho1
+  have hD2 : Real.exp (Acoef r (i + 1) * d2) * (1 + Bcoef r (i + 1) pn) + (1 - Bcoef r (i + 1) pn) ≠ 0 := by
+    have := denom_ge_two _ _ d2 hB (mul_nonneg hA.le hd2); linarith
+  have hD12 : Real.exp (Acoef r (i + 1) * (d1 + d2)) * (1 + Bcoef r (i + 1) pn) + (1 - Bcoef r (i + 1) pn) ≠ 0 := by
+    have := denom_ge_two _ _ (d1 + d2) hB (mul_nonneg hA.le (add_nonneg hd1 hd2)); linarith
+  rw [pStep_eq_pClosed, pStep_eq_pClosed, pStep_eq_pClosed]
+  have hBi : Bcoef r i (pClosed (r.lam (i + 1)) (r.mu (i + 1)) (r.psi (i + 1)) (Acoef r (i + 1)) (Bcoef r (i + 1) pn) d2)
+      = (Real.exp (Acoef r (i + 1) * d2) * (1 + Bcoef r (i + 1) pn) - (1 - Bcoef r (i + 1) pn))
+        / (Real.exp (Acoef r (i + 1) * d2) * (1 + Bcoef r (i + 1) pn) + (1 - Bcoef r (i + 1) pn)) := by
+    rw [Bcoef_def r i, hAeq, hl, hm, hp, hrho]
+    exact Bcoef_of_pClosed _ _ _ _ _ _ hA.ne' hlam.ne' hD2
+  rw [hBi, hAeq, hl, hm, hp]
+  exact p_semigroup_core _ _ _ _ _ _ _ hD2 hD12
+
+/-- **q_semigroup**: under the same hypotheses the branch factor over the merged epoch is the product of the
+factor in the older sub-epoch (from `x` to the cut `tmid`) and the factor of a lineage crossing the cut
+(`tmid` to `tend`) — the term `n_i log q_{i+1}(t_i)` of the code. -/
+theorem q_semigroup (r : Rates ℝ) (i : Nat) (x tmid tend pn : ℝ)
+    (hl : r.lam i = r.lam (i + 1)) (hm : r.mu i = r.mu (i + 1)) (hp : r.psi i = r.psi (i + 1))
+    (hrho : r.rho i = 0) (hlam : 0 < r.lam (i + 1)) (hpsi : 0 < r.psi (i + 1))
+    (hpn0 : 0 ≤ pn) (hpn1 : pn ≤ 1) (hrho1 : 0 ≤ r.rho (i + 1)) (hx : x ≤ tmid) (hmid : tmid ≤ tend) :
+    logq (Acoef r i) (Bcoef r i (pStep r (i + 1) (tend - tmid) pn)) x tmid
+      + logq (Acoef r (i + 1)) (Bcoef r (i + 1) pn) tmid tend
+      = logq (Acoef r (i + 1)) (Bcoef r (i + 1) pn) x tend := by
+  have hAeq : Acoef r i = Acoef r (i + 1) := by unfold Acoef; rw [hl, hm, hp]
+  have hA : 0 < Acoef r (i + 1) := Acoef_pos r (i + 1) (mul_pos hlam hpsi)
+  have hB : -1 ≤ Bcoef r (i + 1) pn := Bcoef_ge_neg_one r (i + 1) pn (mul_pos hlam hpsi) hlam.le hpn0 hpn1 hrho1
+  have hd1 : 0 ≤ tmid - x := by linarith
+  have hd2 : 0 ≤ tend - tmid := by linarith
+  have hD2 : Real.exp (Acoef r (i + 1) * (tend - tmid)) * (1 + Bcoef r (i + 1) pn) + (1 - Bcoef r (i + 1) pn) ≠ 0 := by
+    have := denom_ge_two _ _ (tend - tmid) hB (mul_nonneg hA.le hd2); linarith
+  have hD12 : Real.exp (Acoef r (i + 1) * ((tmid - x) + (tend - tmid))) * (1 + Bcoef r (i + 1) pn)
+      + (1 - Bcoef r (i + 1) pn) ≠ 0 := by
+    have := denom_ge_two _ _ ((tmid - x) + (tend - tmid)) hB (mul_nonneg hA.le (add_nonneg hd1 hd2)); linarith
+  have hBi : Bcoef r i (pStep r (i + 1) (tend - tmid) pn)
+      = (Real.exp (Acoef r (i + 1) * (tend - tmid)) * (1 + Bcoef r (i + 1) pn) - (1 - Bcoef r (i + 1) pn))
+        / (Real.exp (Acoef r (i + 1) * (tend - tmid)) * (1 + Bcoef r (i + 1) pn) + (1 - Bcoef r (i + 1) pn)) := by
+    rw [pStep_eq_pClosed, Bcoef_def r i, hAeq, hl, hm, hp, hrho]
+    exact Bcoef_of_pClosed _ _ _ _ _ _ hA.ne' hlam.ne' hD2
+  have key := q_semigroup_core (Acoef r (i + 1)) (Bcoef r (i + 1) pn) (tmid - x) (tend - tmid) hD2 hD12
+  have e : (tmid - x) + (tend - tmid) = tend - x := by ring
+  rw [e] at key hD12
+  have hq2 : qv (Acoef r (i + 1)) (Bcoef r (i + 1) pn) (tend - tmid) ≠ 0 := by
+    unfold qv
+    exact div_ne_zero (mul_ne_zero (by norm_num) (Real.exp_ne_zero _)) (pow_ne_zero _ hD2)
+  have hq12 : qv (Acoef r (i + 1)) (Bcoef r (i + 1) pn) (tend - x) ≠ 0 := by
+    unfold qv
+    exact div_ne_zero (mul_ne_zero (by norm_num) (Real.exp_ne_zero _)) (pow_ne_zero _ hD12)
+  rw [logq_eq, logq_eq, logq_eq, hBi, hAeq, ← key]
+  refine (Real.log_mul ?_ hq2).symm
+  intro h0
+  rw [h0, zero_mul] at key
+  exact hq12 key.symm
+
+/-! ## refining the epoch grid: indices and boundary counts -/
+
+/-- **epoch_index_refines**: inserting a boundary `s` anywhere into the list of epoch times raises the
+`searchsorted(right=True)` count of a node time `x` by one exactly when `s ≤ x`, and the `right=False` count of a
+tip time `y` exactly when `s < y`: an event keeps its epoch if it lies before the cut, moves to the next index
+if it lies after it, and every later epoch index shifts by one. -/
+theorem epoch_index_refines (L1 L2 : List ℝ) (s x : ℝ) :
+    countLE (ofList (L1 ++ s :: L2)) (L1 ++ s :: L2).length x
+      = countLE (ofList (L1 ++ L2)) (L1 ++ L2).length x + (if s ≤ x then 1 else 0)
+    ∧ countLT (ofList (L1 ++ s :: L2)) (L1 ++ s :: L2).length x
+      = countLT (ofList (L1 ++ L2)) (L1 ++ L2).length x + (if s < x then 1 else 0) := by
+  rw [countLE_ofList, countLE_ofList, countLT_ofList, countLT_ofList]
+  simp only [List.filter_append, List.filter_cons, List.length_append]
+  constructor
+  · by_cases h : s ≤ x <;> simp [h] <;> omega
+  · by_cases h : s < x <;> simp [h] <;> omega
+
+example : countLE (ofList ([0, 1] ++ (3/2 : ℝ) :: [2])) 4 (7/4) = countLE (ofList ([0, 1] ++ [2])) 3 (7/4) + 1 := by
+  have := (epoch_index_refines [0, 1] [2] (3/2) (7/4)).1
+  rw [if_pos (by norm_num)] at this
+  simpa using this
+
+/-- **boundary_count**: for every binary tree whose node times increase from the origin (time `p`) to the tips,
+and every boundary `τ` after the origin, the number `n = #{internal < τ} - #{tips ≤ τ} + 1` used by the code is the
+number of branches that are alive at `τ` and not sampled at `τ`. -/
+theorem boundary_count (T : TTree ℝ) (p τ : ℝ) (hinc : Increasing p T) (hp : p < τ) (t : Nat → ℝ) (i : Nat)
+    (hτ : t i = τ) :
+    nCross t i T.internalTimes T.tipTimes = crossing τ p T := by
+  have := crossing_count τ T p hinc hp
+  unfold nCross
+  rw [hτ]
+  omega
+
+example : Increasing 0 (.node 1 (.tip 2) (.node (3/2) (.tip 3) (.tip (7/4)))) := by
+  simp [Increasing]; norm_num
+
 end TTProps.C09
